@@ -9,7 +9,7 @@
    finding nul_in_source). *)
 From Coq Require Import List NArith ZArith Bool Permutation.
 Import ListNotations.
-From Cffi Require Import C35.PyStr C35.Model C24.Utf8 C32.PyStr C32.Model C32.Spec C32.Gen C32.Proofs.
+From Cffi Require Import C35.PyStr C35.Model C24.Utf8 C32.PyStr C32.Model C32.Spec C32.Gen C32.Proofs C32.Proofs2.
 Open Scope N_scope.
 
 (* the regenerated flatten computes the specified encoding, for every value and fuel *)
@@ -76,6 +76,31 @@ Theorem C32_name_function_of_crcs : forall (crc crc' : list N -> Z) tag ck key k
   module_name crc tag ck key = module_name crc' tag ck key'.
 Proof. exact name_function_of_crcs. Qed.
 Print Assumptions C32_name_function_of_crcs.
+
+(* ... and for a given tag and engine the name determines the two (32-bit) CRCs: the hexadecimal renderings,
+   hex(k1).lstrip('0x') and hex(k2).lstrip('0') — which keeps an 'x' between the two numbers — are injective *)
+Theorem C32_name_injective_in_crcs : forall (crc : list N -> Z) tag ck key key' b b' n,
+  utf8_encode key = Some b -> utf8_encode key' = Some b' ->
+  module_name crc tag ck key = Ok n -> module_name crc tag ck key' = Ok n ->
+  crc_pair crc b = crc_pair crc b'.
+Proof. exact name_injective_in_crcs. Qed.
+Print Assumptions C32_name_injective_in_crcs.
+
+(* the property's conclusion: different inputs share a module name only through a CRC32 collision
+   (two different byte strings with the same pair of CRCs) *)
+Theorem C32_same_name_only_by_crc_collision : forall (crc : list N -> Z) fuel fuel' i j tag ck ki kj bi bj n,
+  nulfree_inputs i -> nulfree_inputs j ->
+  key_of fuel i = Ok ki -> key_of fuel' j = Ok kj ->
+  utf8_encode ki = Some bi -> utf8_encode kj = Some bj ->
+  module_name crc tag ck ki = Ok n -> module_name crc tag ck kj = Ok n ->
+  equiv_inputs i j \/ (bi <> bj /\ crc_pair crc bi = crc_pair crc bj).
+Proof.
+  intros crc fuel fuel' i j tag ck ki kj bi bj n Ni Nj Ki Kj Ei Ej Mi Mj.
+  destruct (list_eq_dec N.eq_dec bi bj) as [->|Hne].
+  - left. eapply C32_key_bytes_injective; eauto.
+  - right. split; auto. eapply name_injective_in_crcs; eauto.
+Qed.
+Print Assumptions C32_same_name_only_by_crc_collision.
 
 (* non-vacuity: {'libraries': ['m'], 'define_macros': [('A', '1')], 'x': True, 'n': -12}, keys sorted *)
 Example C32_example :
